@@ -312,3 +312,22 @@ def backward_after_overwrite(r, module, outs, leaves, cts, what, pick=0):
                        'instead of refusing' % (what, d, sc))
                 return False
     return True
+
+
+def snapshot_out(out):
+    """(yl, yh-list) as returned by a forward module: identities and values, to be compared after later calls."""
+    yl, yh = out
+    ts = [yl] + list(yh)
+    return [id(t) for t in yh], [t.detach().clone() for t in ts]
+
+
+def returned_intact(r, out, snap, what):
+    """What a call returned belongs to the caller: later calls of the same module must not touch the list or tensors."""
+    ids, vals = snap
+    yl, yh = out
+    ts = [yl] + list(yh)
+    if [id(t) for t in yh] != ids or len(ts) != len(vals) or any(
+            tuple(a.shape) != tuple(b.shape) or not torch.equal(a.detach(), b) for a, b in zip(ts, vals)):
+        r.fail('returned_pyramid_overwritten', '%s: the pyramid returned by an earlier call was modified by later calls of the same module' % what)
+        return False
+    return True
